@@ -68,7 +68,11 @@ RULE = ("exhaustive: all boolean trees up to the tier's node bound over 3 atoms 
         "truth-table spec against the generator's expression; 100000-deep nesting under recover; class nesting-limit: "
         "maxNestingDepth-1 / maxNestingDepth nested brackets and NOTs (accepted / error; thorough: the bracket cases also through the "
         "byte-level models) and 3000000 of them in a child process (error, process alive; a death is fatal-stack-overflow:<parser>), "
-        "both parsers; thorough only: flat chain of 10^7 OR operators in a child process (known finding). non-trivial = expression has "
+        "both parsers; class nesting-flat: long FLAT queries whose total number of NOTs / bracket pairs exceeds the limit while the "
+        "nesting stays <= 4 (exclusion lists with 9998/10000/10050/30000 negations, OR-chain of 10010 negated bracket groups, AND-chain of "
+        "10010 bracket groups, a mix with 16000 NOTs) must be accepted by both parsers with the complete flat tree (leaf and NOT/NAND "
+        "counts; spec formula justified by C12_level_is_nesting; smaller ones of 30/120 negations also through the model); "
+        "thorough only: flat chain of 10^7 OR operators in a child process (known finding). non-trivial = expression has "
         "a NOT and a binary operator / token list parses / tree has NOT and OR / raw string has >= 3 tokens and a quoted "
         "token, a comment or parses / round trip of >= 2 atoms; distinct by input")
 
